@@ -26,7 +26,7 @@ AlphaThorough ==
   {Pn(c) : c \in 0..2} \cup {Pd(c) : c \in 0..2} \cup {Po(c) : c \in 0..2}
   \cup {Ts(0), Ts(1), Ts(MaxInt - 1), Ts(-1), P("in", 0, MaxInt, -1), P("id", 0, 1, -1), P("in", 1, 5, 6),
         O("join", 0, 0, 0), O("msg", 1, 3, 0), O("x_unknown", 0, 2, 0), O("x_player_team", 1, 0, 7),
-        Pn(-1), [k |-> "bad", a |-> -12], Fin}
+        P("pn", -1, 5, 6), [k |-> "bad", a |-> -12], Fin}
 \* the alphabet of the design-time prototype (DESIGN A.6): player records, skips, other, finish
 AlphaA6 ==
   {Pn(c) : c \in 0..2} \cup {Pd(c) : c \in 0..2} \cup {Po(c) : c \in 0..2}
